@@ -150,6 +150,23 @@ def check_batch(o):
                     r = tag + ": raised %s: %s" % (type(e).__name__, str(e)[:100])
                 if r:
                     bad.append((r, {"edges": c["E"], "mode": c["mode"], "bias": c["bias"]}, None))
+            # the same samples carried far from the origin (a large common offset, a whole number so that float32 holds it exactly):
+            # the precision does not see an offset, in either storage, in either number type
+            if sparse:
+                far = data + 262144.0
+                ref = None
+                for sp2 in (False, True):
+                    for dt2 in (np.float64, np.float32):
+                        try:
+                            Qf = _dense(GMRFVectorModel(far.copy(), g, mode=c["mode"], sparse=sp2, bias=c["bias"], dtype=dt2).precision).astype(float)
+                        except Exception as e:
+                            bad.append(("%s graph: data far from the origin raised %s" % (gname, type(e).__name__), {}, None))
+                            continue
+                        if ref is None:
+                            ref = Qf
+                        elif Qf.shape != ref.shape or not np.allclose(Qf, ref, rtol=0, atol=2e-3 * max(1.0, np.abs(ref).max())):
+                            bad.append(("%s graph: for samples far from the origin the %s %s precision differs from the dense float64 one (max %.3g)" % (
+                                gname, "sparse" if sp2 else "dense", np.dtype(dt2).name, np.abs(Qf - ref).max()), {"edges": c["E"], "mode": c["mode"]}, None))
             # the object-backed class (samples and queries are shapes) on the same data
             from menpo.model import GMRFModel
 
